@@ -81,9 +81,10 @@ def explore(ck, label, ps, obs=None):
     for p in ps:
         r = res.get(p["id"], {"err": 1})
         q = {k: p[k] for k in ("id", "nv", "entry", "exit", "blocks", "outs")}
-        for k in ("kinds", "ncells"):       # array programs: kinds of the variables and number of cells per array
+        if "ncells" in p or "bool" in p.get("kinds", []):      # array / boolean programs: kinds of the variables (and cells per array)
+            q["kinds"] = p["kinds"]
             if "ncells" in p:
-                q[k] = p[k]
+                q["ncells"] = p["ncells"]
         if "err" in r:
             q.update({"err": 1, "live": [], "dead": [[] for _ in p["blocks"]]})
         else:
@@ -281,6 +282,27 @@ def run(tier, seed):
                      {"program": prog, "violation": v})
         remaining = [p for p in remaining if p["id"] != v["prog"]]
     ck.cov["array_liveness_programs"] = na
+    # ---- liveness with boolean statements, conversions and external calls (2 integers, 2 booleans)
+    nb = 80 if tier == "quick" else 800
+    bps = []
+    for i in range(nb):
+        p = proggen.program(ck.rng, 810000 + i, asserts=True, nints=2, nbools=2, profile="c17b", nstmts=(1, 3))
+        outs = sorted(ck.rng.sample([1, 2, 3, 4], ck.rng.randint(0, 2)))
+        p["fn"] = {"name": "f", "in": [], "out": outs}
+        p["outs"] = outs
+        bps.append(p)
+    remaining = bps
+    for attempt in range(4):
+        v, merged = explore(ck, "bool_%d" % attempt, remaining)
+        if v is None:
+            break
+        prog = next(p for p in remaining if p["id"] == v["prog"])
+        ck.violation("C18: liveness reports variable %d (%s) dead at the end of block b%d, but changing it there changes the execution: %s at "
+                     "block b%d idx %d with states %s / %s" % (v["variable"], prog["vars"][v["variable"] - 1]["n"], v["dead_at_end_of_block"],
+                                                              v["violated"], v["block"], v["idx"], v["state1"], v["state2"]),
+                     {"program": prog, "violation": v})
+        remaining = [p for p in remaining if p["id"] != v["prog"]]
+    ck.cov["boolean_liveness_programs"] = nb
     ck.cov["crawler_violation_kinds"] = dict(kinds)
     ck.cov["rule"] = ("seeded CFGs with assertions, `unreachable` statements in the middle of blocks and a function declaration with 0-2 "
                       "outputs. Liveness: for EVERY block and EVERY variable reported dead at its end, every pair of box states differing "
